@@ -251,8 +251,11 @@ Definition law_step (E : env) (c : cls) (before : inst) (o : op) (ob : obs) : li
   let '(h, kw) := o in
   let after := o_after ob in
   let base := match h, o_out ob with Ctor, Ok => [] | _, _ => before end in
-  chk 1 (forallb (fun nd => (* entries this operation did not write were judged when they were written *)
-                     (opt_eqb pv_eqb (get base (fst nd)) (get after (fst nd))
+  chk 1 (forallb (fun nd => (* entries this operation did not write were judged when they were written; what a SUCCESSFUL
+                               operation assigned is judged even when the entry looks as before (the value that was
+                               there may be an unvalidated default that a read stored) *)
+                     (negb (is_ok (o_out ob) && existsb (fun p => fst p =? fst nd) kw)
+                      && opt_eqb pv_eqb (get base (fst nd)) (get after (fst nd))
                       && opt_eqb pv_eqb (get base (shadow (fst nd))) (get after (shadow (fst nd))))
                      || entry_ok E after nd) c)
   ++ chk 2 (same_on (filter (fun n => negb (touched kw n)) (names_of c)) base after)
@@ -277,6 +280,13 @@ Definition law_step (E : env) (c : cls) (before : inst) (o : op) (ob : obs) : li
             | Ok => dyn_assign_ok c (match h with Ctor => [] | _ => before end) after kw
             | Raise _ => true
             end).
+
+(* clause 8: attributes that were only READ before the history hold exactly their default value (no shadow entry), and
+   nothing else is stored *)
+Definition law_pre (c : cls) (pre : list Z) (init : inst) : list Z :=
+  chk 8 (forallb (fun nd => opt_eqb pv_eqb (get init (fst nd))
+                                           (if existsb (Z.eqb (fst nd)) pre then Some (snd (snd nd)) else None)
+                            && opt_eqb pv_eqb (get init (shadow (fst nd))) None) c).
 
 Fixpoint law_hist (E : env) (c : cls) (i : Z) (s : inst) (h : list (op * obs)) : list Z :=
   match h with
